@@ -220,7 +220,7 @@ async def main():
     open(os.path.join(work, "t.torrent"), "wb").write(w.torrent)
     servers = [await asyncio.start_server(lambda r, wr: tracker(w, r, wr), "127.0.0.1", sc["tracker_port"])]
     for p in sc["peers"]:
-        if not p["incoming"]:
+        if not p["incoming"] and not p.get("dead"):
             servers.append(await asyncio.start_server(lambda r, wr, p=p: seeder(w, p, r, wr, False), "127.0.0.1", p["port"]))
     out = open(os.path.join(work, "stdout.txt"), "wb")
     env = dict(os.environ)
